@@ -7,6 +7,8 @@ COMMON_ASSUME = [
 ]
 
 TIERS = {
+    "C09": {"quick": {"runs": 200, "budget_s": 100, "run_timeout_s": 400},
+            "thorough": {"runs": 3000, "budget_s": 1500, "run_timeout_s": 900}},
     "C20": {"quick": {"runs": 300, "budget_s": 80, "run_timeout_s": 300},
             "thorough": {"runs": 5000, "budget_s": 900, "run_timeout_s": 600}},
     "C13": {"quick": {"runs": 240, "budget_s": 80, "run_timeout_s": 300},
@@ -49,6 +51,20 @@ TM_RULE = ("case = (generated program, argument, seeded history of trace transit
            "or a fault fired")
 
 META = {
+    "C09": {"LEVEL": "exploration",
+            "RULE": "case = (generated target program, observed address subset, selection expression, kernel in {mh, mala, hmc}, step size, "
+                    "leapfrog count, scripted noise / momentum / regenerate outcomes, accept uniform placed at min(1, alpha_ref) x (1 -/+ 1.5%) "
+                    "and at 0+/1-; or a complete outcome tree of mh over discrete latents incl. the mixture-indicator move); distinct = "
+                    "distinct (mode, program shape, selection, number of observed addresses); non-trivial = combinator in the target or a gradient kernel",
+            "COMPONENTS": {"real": ["genjax.inference.mcmc mh/mala/hmc", "genjax.core regenerate/update/assess/filter/merge (incl. Cond, Vmap, Scan)",
+                                    "jax.grad of the model log density"],
+                           "stub": ["Seed key splitting and all leaf samplers (SCRIPTED)", "sim/jaxcompat.py"], "regimes": "SCRIPTED"},
+            "ASSUMPTIONS": COMMON_ASSUME + ["reference gradients by float64 central differences of PPL-ref's log density; float32 proposals "
+                                            "compared to 5e-3 relative; acceptance thresholds tested at +-1.5% of alpha_ref",
+                                            "Cond switches with unobserved own choices are outside the claim (counted, not checked)"],
+            "REQUIRED_PROBES": {"quick": ["mode_mh", "mode_mala", "mode_hmc", "accepted", "rejected", "threshold_runs"],
+                                "thorough": ["mode_mh", "mode_mala", "mode_hmc", "mode_mh_tree", "mode_mixture", "accepted", "rejected",
+                                             "tree_complete", "mixture_indicator_switch", "selection_in_subcall"]}},
     "C20": {"LEVEL": "exploration",
             "RULE": "case = one of: FFBS / backward_sample outcome tree vs brute-force posterior over K^T sequences (K<=3, T<=4, sparse or "
                     "dense matrices); discrete_hmm step model iterated with feedback (outcome tree of simulate + assess vs textbook joint); "
@@ -210,6 +226,8 @@ META = {
 
 DST = "deterministic simulation with fault injection"
 CLAIMS = {
+    "C09": dict(text="every internal draw of a kernel step is scripted: proposals compared with the reference proposal formulas, per-coordinate noise counted, the accept uniform placed either side of the reference threshold, rejected moves bit-identical; complete outcome trees give the exact mh transition matrix, checked for detailed balance and invariance against the reference posterior",
+                ref="DESIGN.md 4 C09", note="float32 vs float64-FD tolerance 5e-3; thresholds at +-1.5%; small discrete state spaces for trees", technique=DST + " (SCRIPTED randomness seam with adversarially placed accept thresholds + outcome-tree transition matrix)"),
     "C20": dict(text="backward sampling and the step models are decided through the randomness seam: complete outcome trees give the exact law of the sampled state sequence / simulated joint, compared with brute-force enumeration and dense-Gaussian conditioning; filter/smoother are op-level comparisons against the same references",
                 ref="DESIGN.md 4 C20", note="small sizes (K,M<=3, T<=4, d<=3); float32 tolerance 5e-3 for Kalman recursions", technique=DST + " (SCRIPTED randomness seam + outcome-tree explorer; brute-force / dense-Gaussian reference)"),
     "C13": dict(text="sampler clause simulated over keys and vectorisation configurations (seed, jit, modular_vmap, vmap of keys) with shape/dtype exact and two-stage goodness-of-fit tests against scipy; logpdf and normalisation compared op by op against scipy (pure clauses, labelled as such)",
